@@ -881,6 +881,16 @@ class TrigTime:
 
             else:
                 _LOGGER.warning("Can't parse %s in time_trigger check", spec)
+        if next_time is not None and next_time_adj == next_time:
+            #
+            # once() and period() times are local (naive) times as well: make (next_time_adj - now) the
+            # real time to wait when a DST change lies between now and next_time (as done for cron above)
+            #
+            delta = dt_util.as_local(next_time).astimezone(dt_util.UTC) - dt_util.as_local(now).astimezone(
+                dt_util.UTC
+            )
+            if delta.total_seconds() > 0:
+                next_time_adj = now + delta
         return next_time, next_time_adj
 
 
